@@ -88,7 +88,7 @@ def run_shard(spec, acc):
     by_key = {}
     by_hash = {}
     cross = []
-    n_fam = 3 if quick else 40
+    n_fam = 8 if quick else 40
 
     def observe(dec, d, payload, nb, src=1, dst=255, prio=3, tag=""):
         try:
@@ -169,6 +169,14 @@ def run_shard(spec, acc):
                 cross.append((d, p0, nb, h0))
         acc.cover("definitions", d.id)
         acc.cover("key_field_counts", len(keys))
+    # definitions whose key is a variable-length string (station ids): same text -> same hash, other text -> other hash
+    from .c01 import variable_cases
+    for d in [x for x in dbx.defs if x.supported and not x.fixed_layout and any(f.pk for f in x.fields) and x.index % spec["n"] == spec["i"]]:
+        for label, payload, nb, texts in variable_cases(dbx, d, rng, 12 if quick else 200):
+            if observe(decA, d, payload, nb, tag=f"string-key {label}") is not None:
+                acc.count("string_key_messages")
+            observe(decB, d, payload, nb, src=2, prio=1, tag=f"string-key {label} other decoder/source")
+        acc.cover("definitions", d.id)
     # second process, other hash seed
     if cross:
         env = dict(os.environ, PYTHONHASHSEED=str(rng.randrange(1, 4000000)), PYTHONDONTWRITEBYTECODE="1")
